@@ -16,6 +16,7 @@ TRUSTED = [
     "modelled, not verified: go-diskqueue (a channel's queue is the multiset of messages waiting on it: placement and order are abstracted; only ephemeral queues are bounded), Go channels/select/mutexes (each operation is atomic at quiescence), time (every operation carries the harness's clock reading; timeouts are driven by VerifScan with margins of seconds)",
     "hooks /repo/nsqd/verif_core.go (VerifHeld, VerifScan: build tag verif); /stats over HTTP is the observation",
     "the coarse model is quiescent-to-quiescent: interleavings inside one operation (the windows K1/K2/K3-K5 of DESIGN.md section 6) are below its grain",
+    "schedule-level hand-off model (model/Handoff.v, DESIGN 10.8): the RWMutex (RLock enabled when the closer does not hold the write lock, Lock when nobody holds it; no writer preference: a superset of Go's behaviours), the atomic exit flag (sequentially consistent steps) and Go's defer (the unlock runs on every way out) are modelled, not verified; that the functions listed in gen/CoreShape.v core_touches are the only ones that move a message between a channel's sets or into a topic's queue rests on the translator (tools/gotables/coreshape.go); locks outside the model (Channel.Lock, inFlightMutex, NSQD.Lock) are not part of the no-deadlock statement",
 ]
 ASSUMPTIONS = ["published message ids are fresh (C12)", "disk write errors do not occur"]
 TECHNIQUE = "Coq invariant proofs over all operation histories of the core state machine + trace validation of real nsqd runs (model replay and property monitor evaluated by vm_compute)"
@@ -29,5 +30,6 @@ def drivers():
         return ["-profile", "c01", "-n", str(n), "-ops", "35", "-seed", str(seed)]
     return [{"driver": "coredrive", "args": args, "replay_args": lambda tier: [], "timeout": 1500}]
 LEVEL_TEXT = 'Machine-checked proof (Coq) over the executable nsqd core model (topics, channels, consumers, in-flight/deferred bookkeeping) that for EVERY history following an acknowledged publish - any consumers, RDY changes, FIN, REQ with any delay, TOUCH, timeouts, abrupt disconnects with messages in flight, pause/unpause, channel creation, emptying other channels - the message stays accounted for on every durable channel that existed when it was published (topic queue, channel queue, in flight, deferred, finished, or explicitly emptied), and that redelivery is always enabled (timeout scan re-queues, deferred scan re-queues, queued message deliverable to any ready consumer). The model is tied to the code by trace validation: real nsqd runs are replayed through the model inside coqc and a model-independent monitor checks, after a final drain, that every owed message was finished.'
+LEVEL_TEXT = LEVEL_TEXT + " Schedules (model/Handoff.v): for ANY number of publishes in progress and ANY interleaving of their steps with Topic.exit's lock, flag and flush statements as the CURRENT source has them, no publish is acknowledged without being among what the close writes to disk (C01_publish_vs_close_every_schedule; the read-lock closer of the source before 56cbfc9 is refuted by a witness schedule)."
 LEVEL_NOTE = "Liveness is enabledness, not fairness of the Go scheduler / queue-scan selection. Ephemeral overflow and sample_rate are the deliberate drops (sample_rate not exercised). Interleavings inside one operation are below the coarse model's grain."
 DESIGN_REF = "DESIGN.md section 5.0 and C01"
